@@ -82,7 +82,7 @@ def rand_cs(rng, allow_buffered=True, refresh=True):
         cmd_buffer_buffered=bool(allow_buffered and rng.random() < 0.35),
         with_auto_precharge=rng.random() < 0.6,
         with_refresh=refresh,
-        refresh_postponing=rng.choice([1, 1, 2, 4, 8]) if refresh else 1,
+        refresh_postponing=rng.choice([1, 1, 2, 4, 8, 3, 5, 7]) if refresh else 1,
         read_time=rng.choice([32, 32, 8, 16]),
         write_time=rng.choice([16, 16, 4, 8]),
     )
